@@ -391,14 +391,36 @@ def run(ctx):
     # point: it is grown from the optimum, one neighbouring point at a time, while
     # that point is accepted.  (The smallest and largest accepted pH of the whole
     # profile span the hump between two wells.)
-    helpers = [n for n in prof.body if isinstance(n, ast.FunctionDef)]
-    grown = False
-    why_g = 'no local interval routine'
-    for h in helpers:
-        hp = [a.arg for a in h.args.args]
-        if len(hp) != 1:
+    # the interval routine: the function that is called with the predicate (a
+    # lambda), nested in get_folding_profile or a function of the module; its
+    # other parameters are bound to the profile and the optimum
+    helpers = []
+    for c in calls_in(prof, nested=False):
+        lam = [a for a in c.args if isinstance(a, ast.Lambda)]
+        if len(lam) != 1 or not isinstance(c.func, ast.Name):
             continue
-        acc = hp[0]
+        cand = [n for n in prof.body if isinstance(n, ast.FunctionDef) and n.name == c.func.id] or \
+            [mc.funcs[c.func.id]] if (c.func.id in mc.funcs or any(
+                isinstance(n, ast.FunctionDef) and n.name == c.func.id for n in prof.body)) else []
+        for h in cand:
+            hp = [a.arg for a in h.args.args]
+            bind = dict(zip(hp, [norm(a) if not isinstance(a, ast.Lambda) else '<predicate>' for a in c.args]))
+            if (h, bind) not in [(x, b) for x, b in helpers]:
+                helpers.append((h, bind))
+    grown = False
+    why_g = 'no interval routine taking the predicate'
+    seen_h = set()
+    for h, bind in helpers:
+        if id(h) in seen_h:
+            continue
+        seen_h.add(id(h))
+        acc = next((p_ for p_, v in bind.items() if v == '<predicate>'), None)
+        if acc is None:
+            continue
+        # names of the profile and the optimum inside the routine
+        inv = {v: k for k, v in bind.items()}
+        pvar_h = inv.get(pvar, pvar)
+        opt_h = inv.get(opt_name, opt_name)
         whiles = [w for w in walk_no_nested(h) if isinstance(w, ast.While)]
         steps = []
         for w in whiles:
@@ -410,16 +432,16 @@ def run(ctx):
             delta = '+' if isinstance(body[0].op, ast.Add) else '-'
             tests = [norm(v).replace(' ', '') for v in (w.test.values if isinstance(w.test, ast.BoolOp)
                                                         and isinstance(w.test.op, ast.And) else [w.test])]
-            want = '%s(%s[%s%s1][1])' % (acc, pvar, idx, delta)
+            want = '%s(%s[%s%s1][1])' % (acc, pvar_h, idx, delta)
             if want in tests:
                 steps.append((idx, delta))
         rets_h = [r for r in walk_no_nested(h) if isinstance(r, ast.Return)]
         starts_at_opt = [st for st in walk_no_nested(h) if isinstance(st, ast.Assign)
-                         and norm(st.value).replace(' ', '') == '%s.index(%s)' % (pvar, opt_name)]
+                         and norm(st.value).replace(' ', '') == '%s.index(%s)' % (pvar_h, opt_h)]
         final = [r for r in rets_h if not (isinstance(r.value, ast.Tuple)
                                            and all(try_fold(e, {}) is None and norm(e) == 'None' for e in r.value.elts))]
         opt_accepted = bool(final) and all(
-            any(pol and norm(e).replace(' ', '') == '%s(%s[1])' % (acc, opt_name)
+            any(pol and norm(e).replace(' ', '') == '%s(%s[1])' % (acc, opt_h)
                 for e, pol in facts_at(r, h)) for r in final)
         if sorted(d for _i, d in steps) == ['+', '-'] and len({i for i, _d in steps}) == 2 \
                 and starts_at_opt and opt_accepted:
@@ -461,19 +483,19 @@ def run(ctx):
                                 text += ' ' + norm(s2.value)
             pred = None
             for d in defs:
-                if isinstance(d.value, ast.Call) and len(d.value.args) == 1 \
-                        and isinstance(d.value.args[0], ast.Lambda) \
-                        and isinstance(d.value.args[0].body, ast.Compare):
-                    pred = d.value.args[0].body
+                if isinstance(d.value, ast.Call):
+                    lams = [a for a in d.value.args if isinstance(a, ast.Lambda)]
+                    if len(lams) == 1 and isinstance(lams[0].body, ast.Compare):
+                        pred = lams[0].body
             if name == pvar:
                 roles[name] = 'profile'
-            elif 'min(' in text and 'key=' in text:
-                roles[name] = 'optimum'
             elif pred is not None and levels and pred is levels[0][0]:
                 roles[name] = 'range80'
             elif pred is not None and len(pred.ops) == 1 and isinstance(pred.ops[0], ast.Lt) \
                     and try_fold(pred.comparators[0]) == 0:
                 roles[name] = 'stable'
+            elif name == opt_name or ('min(' in text and 'key=' in text):
+                roles[name] = 'optimum'
             elif '0.8' in text:
                 roles[name] = 'range80'
             elif '< 0.0' in text or '< 0' in text:
